@@ -227,6 +227,9 @@ def check_genesis(p, ts, balw, BAL, ctx=None):
                 continue
             names = [x[1] for x in walk(c[0]) if x[0] == "call"]
             if any(n.startswith("dedup") for n in names) and any(n.startswith("sort") for n in names):
+                okd, whyd = sorted_dedup_ok(ctx, c[0])
+                if not okd:
+                    return False, "duplicate validation by sort + dedup does not validate the addresses: " + whyd
                 uniq = True
             if any("BTreeSet" in n or "HashSet" in n for n in names):
                 uniq = True
@@ -283,6 +286,67 @@ def infeasible_emptiness(p, lk):
         if c1 == c0 and not took1:
             return True
     return False
+
+
+def _closure_ret(ctx, clos, nargs):
+    """result term of a pure closure applied to symbolic arguments A, B (None unless it has exactly one path)"""
+    if not (isinstance(clos, tuple) and clos and clos[0] == "closure") or ctx is None:
+        return None
+    b = ctx.engine.by_dp.get(clos[1])
+    if b is None:
+        return None
+    args = [clos] + [("param", n) for n in ("A", "B")[:nargs]]
+    try:
+        cps = ctx.engine.summarise(b, args=args)
+    except Exception:
+        return None
+    return cps[0].ret if len(cps) == 1 else None
+
+
+def _is_addr_of(t, who):
+    """t is <who>.address, possibly cloned / borrowed / viewed as str"""
+    n = 0
+    while t[0] == "call" and t[2] and t[1].split("::")[-1] in ("clone", "as_str", "as_ref", "deref", "to_string", "to_owned", "borrow") and n < 4:
+        t, n = t[2][0], n + 1
+    return t == ("field", ("param", who), "address")
+
+
+def sorted_dedup_ok(ctx, term):
+    """`dedup*(sort*(rows))` removes every repeated address only if the order that sorts and the equality that removes look at the
+    same thing, the address: natural order + natural equality of plain strings, or key / comparison closures that project
+    `.address`.  Rows sorted by the row type's own Ord impl (whatever it compares first) are not sorted by address."""
+    found = False
+    for d in walk(term):
+        if not (d[0] == "call" and d[1].startswith("dedup") and d[2]):
+            continue
+        s = d[2][0]
+        if not (s[0] == "call" and s[1].startswith("sort") and s[2]):
+            continue
+        found = True
+        for what, t in (("sorted", s), ("de-duplicated", d)):
+            op, extra = t[1], t[2][1:]
+            if not extra:
+                continue            # natural order / equality of a library type (strings): total order consistent with equality
+            x = extra[0]
+            if x[0] == "str" and x[1].startswith("by-impl:"):
+                return False, "the rows are %s by the `%s` impl of %s itself, not by address (equal addresses need not be adjacent / " \
+                              "equal rows need equal amounts)" % (what, "Ord" if what == "sorted" else "PartialEq", x[1][8:])
+            if op.endswith("_by_key") or op.endswith("cached_key"):
+                r = _closure_ret(ctx, x, 1)
+                if r is None or not _is_addr_of(r, "A"):
+                    return False, "%s by a key that is not the row's address: %s" % (what, show(r)[:120] if r else "closure not summarised")
+            else:
+                r = _closure_ret(ctx, x, 2)
+                good = False
+                if r is not None and r[0] == "cmp" and r[1] == "eq":
+                    good = (_is_addr_of(r[2], "A") and _is_addr_of(r[3], "B")) or (_is_addr_of(r[2], "B") and _is_addr_of(r[3], "A"))
+                elif r is not None and r[0] == "call" and r[1].split("::")[-1] in ("cmp", "partial_cmp") and len(r[2]) == 2:
+                    good = (_is_addr_of(r[2][0], "A") and _is_addr_of(r[2][1], "B")) or (_is_addr_of(r[2][0], "B") and _is_addr_of(r[2][1], "A"))
+                if not good:
+                    return False, "%s by a comparison that is not on the rows' addresses: %s" % (what, show(r)[:120] if r else "closure not summarised")
+    if not found:
+        return False, "no dedup applied to a sorted list"
+    return True, None
 
 
 def pairwise_unique(ctx, c):
